@@ -123,9 +123,17 @@ def default_of(d):
     return "0" if k == "str" else 0
 
 
-def make_class(spec):
+def falsy_mode(case):
+    """Replay-stable switch: a quarter of the cases run on objects whose classes define `__bool__` returning
+    False, another quarter on classes with `__len__` returning 0 (alive but falsy HasTraits objects: nothing in
+    the property depends on an object's truth value, so `if not partner:` instead of `is None` shows)."""
+    import zlib
+    return ("bool", "len", "", "")[zlib.crc32(case.encode()) % 4]
+
+
+def make_class(spec, falsy=""):
     """spec = tuple of (name, is_list, kind, flavour)."""
-    c = _classes.get(spec)
+    c = _classes.get((spec, falsy))
     if c is None:
         from traits.api import HasTraits, List
 
@@ -135,6 +143,10 @@ def make_class(spec):
         def method(value):
             return lambda self: list(value)
         base, sub = {}, {}
+        if falsy == "bool":
+            base["__bool__"] = lambda self: False
+        elif falsy == "len":
+            base["__len__"] = lambda self: 0
         for d in spec:
             n, il, k, fl = d
             if not il:
@@ -151,7 +163,7 @@ def make_class(spec):
         c = type("O_" + tag, (HasTraits,), base)
         if sub:
             c = type("OS_" + tag, (c,), sub)
-        _classes[spec] = c
+        _classes[(spec, falsy)] = c
     return c
 
 
